@@ -161,7 +161,6 @@ func runC02(e *core.Env) error {
 	return nil
 }
 
-
 // atomMon watches EVERY committed state of the fake PostgreSQL (after each COMMIT and each autocommitted
 // statement): in each of them, every row of an integration table lies at or below the newest recorded
 // position of its (source, integration) pair — "in every database state another session can observe".
